@@ -85,7 +85,8 @@ def _entry_points(ctx: Ctx, rng):
     # factors whose evaluated values are 2-D arrays, dictionaries of columns or wrapped series: nulls are found row-wise in all of them
     def wrap(nm):
         if nm in M.NUM and len({v for v in frame.num[nm] if v is not None}) >= 3 and rng.random() < 0.5:
-            return rng.choice(["poly({n}, 2)", "np.log({n}*{n} + 1)", "I({n})", "bs({n}, df=3, degree=1)"]).format(n=nm)
+            return rng.choice(["poly({n}, 2)", "np.log({n}*{n} + 1)", "I({n})", "bs({n}, df=3, degree=1)",
+                               "poly(np.log({n}*{n}), 2, raw=True)"]).format(n=nm)      # log(0) = -inf, squared = +inf: infinite, not null
         if nm in M.CAT and rng.random() < 0.3:
             return rng.choice(["C({n})", "C({n}, contr.sum)"]).format(n=nm)
         return nm
